@@ -1,48 +1,87 @@
 (* C06 for the parenthesis rule: the single-line formatter on operator shapes is idempotent on every shape in which no
-   unary minus is applied - through parentheses and type assertions - to something that starts with a unary minus.
-   (With such a minus the guard `parenthesise_double_minus` adds parentheses that a second pass may drop again:
-   Fmt0Proof.nprog_not_idempotent_refuted.) *)
+   unary minus is written directly in front of something that starts with a unary minus (`- -x`); on such a shape the guard
+   `parenthesise_double_minus` adds parentheses that can make a second pass drop others (Fmt0Proof.nprog_not_idempotent_refuted).
+   What the formatter writes never has that shape, so two passes always reach a fixed point. *)
 From Coq Require Import List Bool.
 From SV Require Import Expr Parens ParensProof.
 
-Lemma starts_neg_sn : forall e c, starts_neg (fmt_single c e) = true -> sn e = true.
+(* in a context that keeps parentheses (a type assertion's operand, a prefix) formatting does not change what the expression starts with *)
+Lemma starts_neg_fmt_keeps : forall a c, keeps c = true -> starts_neg (fmt_single c a) = starts_neg a.
 Proof.
-  induction e; intros c H; cbn [fmt_single sn] in *; try discriminate.
-  - destruct (droppable c e); [apply (IHe c H)|discriminate].
-  - destruct u; [reflexivity|discriminate|discriminate|discriminate].
-  - apply (IHe TypeAssertion). exact H.
+  induction a as [| |x IH|u x IH|b l IHl r IHr|x IH|x IH]; intros c K; cbn [fmt_single starts_neg]; try reflexivity.
+  - unfold droppable. rewrite K, andb_false_r. reflexivity.
+  - apply IH. reflexivity.
 Qed.
-Lemma guard_free u x c : gf (Un u x) = true -> guard u (fmt_single c x) = fmt_single c x.
+(* under the premise the guard fires only where parentheses were written (and have just been dropped) *)
+Lemma guard_only_after_parentheses z : gf (Un Neg z) = true -> starts_neg (fmt_single UB z) = true ->
+  exists w, z = Paren w /\ droppable UB w = true /\ starts_neg (fmt_single UB w) = true.
 Proof.
-  cbn [gf]. intros H. apply andb_true_iff in H. destruct H as [H _]. unfold guard. destruct u; try reflexivity.
-  destruct (starts_neg (fmt_single c x)) eqn:S; [|reflexivity]. rewrite (starts_neg_sn x c S) in H. discriminate.
+  cbn [gf]. intros G S. apply andb_true_iff in G. destruct G as [G0 _]. apply negb_true_iff in G0.
+  destruct z as [| |w|u w|b l r|w|w]; cbn [fmt_single starts_neg] in *; try discriminate.
+  - exists w. split; [reflexivity|]. destruct (droppable UB w); [split; [reflexivity|exact S]|discriminate].
+  - destruct u; congruence.
+  - rewrite (starts_neg_fmt_keeps w TypeAssertion eq_refl) in S. congruence.
 Qed.
 (* what is not droppable stays not droppable once its inside has been formatted *)
 Lemma check_stable : forall x c c', gf x = true -> check x c = false -> check (fmt_single c' x) c = false.
 Proof.
-  induction x; intros c c' G H; cbn [fmt_single check] in *; try discriminate; try reflexivity; try exact H.
-  rewrite (guard_free u x UB G). cbn [gf] in G. apply andb_true_iff in G. destruct G as [_ G].
-  destruct c; try exact H; try (apply IHx; assumption).
-  destruct u; try exact H; apply IHx; assumption.
+  induction x as [| |x IHx|u x IHx|b l IHl r IHr|x IHx|x IHx]; intros c c' G H; cbn [fmt_single check] in *; try discriminate; try reflexivity; try exact H.
+  assert (K : check x c = false -> check (guard u (fmt_single UB x)) c = false).
+  { intros Hx. assert (Gx : gf x = true) by (cbn [gf] in G; apply andb_true_iff in G; apply G).
+    unfold guard. destruct u; try (apply IHx; assumption).
+    destruct (starts_neg (fmt_single UB x)) eqn:S; [|apply IHx; assumption].
+    destruct (guard_only_after_parentheses x G S) as (w & -> & _). discriminate. }
+  destruct c; try reflexivity; try (apply K; exact H). destruct u; try reflexivity; apply K; exact H.
+Qed.
+(* ... and under a unary operator what is droppable stays droppable *)
+Lemma check_UB_stable : forall x, gf x = true -> check x UB = true -> check (fmt_single UB x) UB = true.
+Proof.
+  induction x as [| |x IHx|u x IHx|b l IHl r IHr|x IHx|x IHx]; intros G H; cbn [fmt_single check] in *; try discriminate; try reflexivity.
+  - unfold droppable. cbn [keeps negb]. rewrite andb_true_r. destruct (check x UB) eqn:C; [apply IHx; assumption|reflexivity].
+  - cbn [gf] in G. apply andb_true_iff in G. destruct G as [_ G]. unfold guard. destruct u; try (apply IHx; assumption).
+    destruct (starts_neg (fmt_single UB x)); [reflexivity|apply IHx; assumption].
 Qed.
 Theorem fmt_single_idempotent : forall e c, gf e = true -> fmt_single c (fmt_single c e) = fmt_single c e.
 Proof.
-  induction e; intros c G; cbn [fmt_single]; try reflexivity.
+  induction e as [| |e IHe|u e IHe|b e1 IHe1 e2 IHe2|e IHe|e IHe]; intros c G; cbn [fmt_single]; try reflexivity.
   - (* parentheses *) cbn [gf] in G. destruct (droppable c e) eqn:D; [apply IHe; exact G|]. cbn [fmt_single].
     assert (D' : droppable c (fmt_single Std e) = false).
     { unfold droppable in *. apply andb_false_iff in D. apply andb_false_iff. destruct D as [D|D]; [left; apply check_stable; assumption|right; exact D]. }
     rewrite D', IHe by exact G. reflexivity.
-  - (* unary *) rewrite (guard_free u e UB G). cbn [fmt_single]. cbn [gf] in G. apply andb_true_iff in G. destruct G as [G0 G].
-    rewrite IHe by exact G. f_equal. unfold guard. destruct u; try reflexivity.
-    destruct (starts_neg (fmt_single UB e)) eqn:S; [|reflexivity]. rewrite (starts_neg_sn e UB S) in G0. discriminate.
+  - (* unary *) assert (Ge : gf e = true) by (cbn [gf] in G; apply andb_true_iff in G; apply G).
+    unfold guard at 2. destruct u; try (cbn [fmt_single guard]; rewrite IHe by exact Ge; reflexivity).
+    destruct (starts_neg (fmt_single UB e)) eqn:S.
+    + (* the guard fires: parentheses were written here, dropped, and come back; the second pass does the same *)
+      destruct (guard_only_after_parentheses e G S) as (w & -> & Dw & Sw). cbn [gf] in Ge.
+      assert (Y : fmt_single UB (Paren w) = fmt_single UB w) by (cbn [fmt_single]; rewrite Dw; reflexivity).
+      rewrite Y. cbn [fmt_single].
+      assert (D2 : droppable UB (fmt_single UB w) = true).
+      { unfold droppable in *. cbn [keeps negb] in *. rewrite andb_true_r in *. apply check_UB_stable; assumption. }
+      rewrite D2. specialize (IHe UB Ge). rewrite Y in IHe. rewrite IHe. unfold guard. rewrite Sw. reflexivity.
+    + cbn [fmt_single]. rewrite IHe by exact Ge. unfold guard. rewrite S. reflexivity.
   - (* binary *) cbn [gf] in G. apply andb_true_iff in G. destruct G as [G1 G2]. rewrite IHe1, IHe2 by assumption. reflexivity.
   - rewrite IHe by exact G. reflexivity.
   - rewrite IHe by exact G. reflexivity.
 Qed.
+(* what the formatter writes meets the premise, whatever it was given: two passes always reach a fixed point *)
+Lemma gf_fmt : forall e c, gf (fmt_single c e) = true.
+Proof.
+  induction e as [| |e IHe|u e IHe|b e1 IHe1 e2 IHe2|e IHe|e IHe]; intros c; cbn [fmt_single gf]; try reflexivity.
+  - destruct (droppable c e); [apply IHe|cbn [gf]; apply IHe].
+  - unfold guard. destruct u; try (rewrite IHe; reflexivity).
+    destruct (starts_neg (fmt_single UB e)) eqn:S; [cbn [starts_neg gf negb andb]; apply IHe|rewrite S, IHe; reflexivity].
+  - rewrite IHe1, IHe2. reflexivity.
+  - apply IHe.
+  - apply IHe.
+Qed.
+Theorem fmt_single_second_pass_is_a_fixed_point e c : fmt_single c (fmt_single c (fmt_single c e)) = fmt_single c (fmt_single c e).
+Proof. apply fmt_single_idempotent. apply gf_fmt. Qed.
 (* the condition is needed: the witness of the refutation *)
 Example not_idempotent_with_a_double_minus :
   let e := Paren (Un Neg (Un Neg Multi)) in gf e = false /\ fmt_single Std (fmt_single Std e) <> fmt_single Std e.
 Proof. split; [reflexivity|vm_compute; discriminate]. Qed.
+(* ... and a minus in front of a parenthesised minus meets it *)
+Example guarded_minus_meets_the_premise : gf (Un Neg (Paren (Un Neg Atom))) = true. Proof. reflexivity. Qed.
 
 (* ---------- conditions (if / elseif / while / until): every layer of parentheses around them goes ---------- *)
 (* A condition uses the first value of its expression only, so parentheses around it - which can only truncate to the first
